@@ -666,22 +666,24 @@ fn c04(seed: u64, cases: usize, _model_path: &str) -> serde_json::Value {
         // `flaand` = Vec<(e bit, u)>: the e bits are unauthenticated but every wrong one makes the LaAND check value non-zero; two wrong ones in ONE bucket
         // (the one-AND circuit has a single bucket) must not cancel
         ("flaand", vec![8]), ("flaand", vec![8, 8 + 17]), ("flaand", vec![8 + 17, 8 + 17 * 4]), ("flaand", vec![8, 8 + 17, 8 + 34, 8 + 51]), ("fashare ver", vec![16, 16 + 25]), ("fashare ver", vec![16, 16 + 25 * 39])];
-    for (phase, offs) in multi { for occurrence in [0usize, 1] { let n = 2; let c = if phase == "flaand" { mk_circ(n) } else { mk_circ2(n) };
+    // roles rotate: the victim is the party with the lowest and with the highest index (a check that only some indices perform cannot hide)
+    for (phase, offs) in multi { for occurrence in [0usize, 1] { for (mvictim, madv) in [(0usize, 1usize), (1, 0)] { let n = 2; let c = if phase == "flaand" { mk_circ(n) } else { mk_circ2(n) };
         let inputs: Vec<Vec<bool>> = (0..n).map(|_| vec![r.bool()]).collect();
         let args: Vec<PartyArgs> = (0..n).map(|p| PartyArgs { inputs: inputs[p].clone(), p_eval: 0, p_own: p, p_out: (0..n).collect(), tmp_dir: None }).collect();
         let ph = phase.to_string(); let hit = std::rc::Rc::new(std::cell::Cell::new(false)); let hit2 = hit.clone(); let offs2 = offs.clone();
-        let m: exec::Mutator = Box::new(move |from, to, p, k, mut d| { if from != 1 || to != 0 || p != ph || k != occurrence || offs2.iter().any(|o| *o >= d.len() || d[*o] > 1) { return Some(d); }
+        let m: exec::Mutator = Box::new(move |from, to, p, k, mut d| { if from != madv || to != mvictim || p != ph || k != occurrence || offs2.iter().any(|o| *o >= d.len() || d[*o] > 1) { return Some(d); }
             for o in &offs2 { d[*o] ^= 1; } hit2.set(true); Some(d) });
         let run = exec::run(&c, &args, &RunCfg { cap: 1, sched: Sched::RoundRobin, keep_payloads: false }, Some(m)); execs += 1;
         if !hit.get() { continue; }
-        let o = &run.outs[0]; *dist.entry(format!("multi:{phase}")).or_default() += 1; *dist.entry(format!("multi_outcome:{}", ["ok", "err", "panic", "blocked"][okind(o) as usize])).or_default() += 1;
-        distinct.insert(format!("multi/{phase}/{offs:?}/{occurrence}"));
-        let desc = json!({"n": n, "phase": phase, "occurrence": occurrence, "flipped_bool_bytes": offs, "victim": 0});
+        let o = &run.outs[mvictim]; *dist.entry(format!("multi:{phase}")).or_default() += 1; *dist.entry(format!("multi_outcome:{}", ["ok", "err", "panic", "blocked"][okind(o) as usize])).or_default() += 1;
+        distinct.insert(format!("multi/{phase}/{offs:?}/{occurrence}/{mvictim}"));
+        let desc = json!({"n": n, "phase": phase, "occurrence": occurrence, "flipped_bool_bytes": offs, "victim": mvictim});
         // the victim must leave PREPROCESSING with an error: it may not get past the check on the strength of a later, unrelated failure
-        let pre_err = match o { Out::Err(e) => e.contains("Preprocessing") || e.contains("WrongMAC") || e.contains("XorNotZero") || e.contains("Commitment") || e.contains("Broadcast") || e.contains("KOS") || e.contains("InvalidBitValue"), _ => false };
+        // the victim's OWN detection: an error it raised, not the closed channel its peer left behind when the peer's (honest) copy of the code noticed the lie itself
+        let pre_err = match o { Out::Err(e) => !e.contains("ChannelErr") && (e.contains("Preprocessing") || e.contains("WrongMAC") || e.contains("XorNotZero") || e.contains("Commitment") || e.contains("Broadcast") || e.contains("KOS") || e.contains("InvalidBitValue")), _ => false };
         if !pre_err { failures.push(json!({"witness": format!("C04:accepted-unverified-multi:{phase}"), "failure": format!("{} authenticated Boolean fields of one `{phase}` message were flipped (MACs unchanged) and the victim did not reject it in preprocessing: {}", offs.len(), short(o)), "case": desc})); }
         if samples.len() < 3 { samples.push(json!({"case": desc, "victim": short(o)})); }
-    } }
+    } } }
     // ---- (a3) a WITHHELD element: the peer sends one authenticated value, or one MAC, fewer than the receiver needs (inner vectors; the
     // channel layer only checks the outer length). The values that are still there are all correct. The victim must reject in preprocessing:
     // a check that walks the shorter of two vectors (zip) verifies nothing about the rest.
@@ -1231,23 +1233,24 @@ fn c07m(seed: u64, cases: usize, model_path: &str) -> serde_json::Value {
     // ---- leaky-AND: a peer lies about its (unauthenticated) `e` bits in `flaand`; the victim then opens its check value H in `flaand hash`.
     // Pooling what the victim sent with what the peer holds: does H_victim[j] ^ H_peer[j] equal the victim's global key?
     for (lie, positions) in [("one-e-bit", vec![0usize]), ("two-e-bits-one-bucket", vec![0usize, 1]), ("none", vec![])] { for rep in 0..2 {
-        let n = 2usize;
+        let n = 2usize; let (lvictim, ladv) = if rep == 0 { (0usize, 1usize) } else { (1, 0) };      // the victim has the lowest / the highest index
         let insts: Vec<Inst> = (0..n).map(|p| Inst { out: Reg(p as u32), op: Op::Input(Input { party: p as u32, input: 0 }) }).chain(std::iter::once(Inst { out: Reg(n as u32), op: Op::And(And(Reg(0), Reg(1))) })).collect();
         let c = Circuit { input_regs: vec![1; n], insts, max_reg_count: n + 1, output_regs: vec![Reg(n as u32)], and_ops: 1 };
         let args: Vec<PartyArgs> = (0..n).map(|p| PartyArgs { inputs: vec![r.bool()], p_eval: 0, p_own: p, p_out: vec![0, 1], tmp_dir: None }).collect();
         let pos2 = positions.clone();
-        let mutator: exec::Mutator = Box::new(move |from, to, ph, k, d| { if from == 1 && to == 0 && ph == "flaand" && k == 0 { let mut v: Vec<(bool, u128)> = de(&d); for &j in &pos2 { if j < v.len() { v[j].0 = !v[j].0; } } return Some(ser(&v)); } Some(d) });
+        let mutator: exec::Mutator = Box::new(move |from, to, ph, k, d| { if from == ladv && to == lvictim && ph == "flaand" && k == 0 { let mut v: Vec<(bool, u128)> = de(&d); for &j in &pos2 { if j < v.len() { v[j].0 = !v[j].0; } } return Some(ser(&v)); } Some(d) });
         let taps: Rc<RefCell<Vec<(String, usize, Vec<u128>)>>> = Default::default(); let t2 = taps.clone();
         polytune::verif::set_sink(Some(Box::new(move |k, p, v| if k == "delta" { t2.borrow_mut().push((k.to_string(), p, v.to_vec())) })));
         let run = exec::run(&c, &args, &RunCfg { cap: 1, sched: Sched::RoundRobin, keep_payloads: true }, Some(mutator)); execs += 1;
         polytune::verif::set_sink(None);
-        let delta0 = taps.borrow().iter().find(|t| t.1 == 0).map(|t| t.2[0]).unwrap_or(0);
+        let delta0 = taps.borrow().iter().find(|t| t.1 == lvictim).map(|t| t.2[0]).unwrap_or(0);
         let h = |from: usize, to: usize| -> Vec<u128> { run.payloads.iter().find(|(f, t, ph, _)| *f == from && *t == to && ph == "flaand hash").map(|p| de(&p.3)).unwrap_or_default() };
-        let (h0, h1) = (h(0, 1), h(1, 0)); distinct.insert((n, lie == "none", lie.len() + rep));
+        let (h0, h1) = (h(lvictim, ladv), h(ladv, lvictim)); distinct.insert((n, lie == "none", lie.len() + rep));
         let leaked: Vec<usize> = (0..h0.len().min(h1.len())).filter(|j| delta0 != 0 && h0[*j] ^ h1[*j] == delta0).collect();
-        let victim_ok = matches!(run.outs[0], Out::Ok(_));
+        // "noticed" = the victim itself raised the error of the leaky-AND check (a closed channel, left behind by the peer's own copy of the code, is not its detection)
+        let victim_ok = !matches!(&run.outs[lvictim], Out::Err(e) if e.contains("XorNotZero") || e.contains("CommitmentCouldNotBeOpened"));
         if !leaked.is_empty() { failures.push(json!({"property": "C07", "witness": if victim_ok { "C07:laand-e-lie-leak-undetected" } else { "C07-b:laand-e-lie-leaks-on-abort" },
-            "failure": format!("a peer lies about its e bits in `flaand` ({lie}): the check value the honest party opens in `flaand hash`, XORed with the peer's own, is the honest party's global key at positions {leaked:?}; the honest party {}", if victim_ok { "completes the run without noticing" } else { "aborts, but only after having sent it" }), "victim": short(&run.outs[0])})); }
+            "failure": format!("a peer lies about its e bits in `flaand` ({lie}): the check value the honest party opens in `flaand hash`, XORed with the peer's own, is the honest party's global key at positions {leaked:?}; the honest party (index {lvictim}) {}", if victim_ok { "does not notice (it raises no error of its own)" } else { "aborts, but only after having sent it" }), "victim": short(&run.outs[lvictim])})); }
     } }
     let mut seenw = std::collections::BTreeSet::new(); failures.retain(|f| seenw.insert(f["witness"].to_string() + &f["failure"].to_string()));
     json!({"executions": execs, "openings_compared": compared, "distinct_nontrivial": distinct.len(), "distribution": {}, "samples": samples, "model_disagreements": disagreements, "impl_vs_oracle_failures": failures, "model_requests": m.requests})
